@@ -11,6 +11,12 @@ CONSTANTS
   MemSoft = {}
   CpuAmt = {}
   MemAmt = {}
+  MsLim = {}
+  MsSoft = {}
+  Ticks = {}
+  ThrInc = 10000
+  MaxClk = 0
+  OldPopOrder = FALSE
   XFlags = {}
   MaxDepth = 64
   MaxFrames = 64
